@@ -161,7 +161,7 @@ class Ctx:
                 out.append(json.loads(line))
         return out
 
-    def validate(self, module, cfg, trace_path, env=None, workers=16, **kw):
+    def validate(self, module, cfg, trace_path, env=None, workers=16, fanout=64, **kw):
         """stateless trace validation: returns {line -> [clauses]} for rejected lines.
         TLC prints <<"REJECT", line, {clauses}>>; the number of distinct states must
         equal the number of lines (otherwise the model is broken)."""
@@ -173,8 +173,8 @@ class Ctx:
         r = self.tlc(module, cfg, workers=workers, env=e, **kw)
         if r.violated:
             raise Broken("trace module %s reported %s (it should only print rejects)\n%s" % (module, r.violated, r.out[-2000:]))
-        if r.distinct != n:
-            raise Broken("trace module %s judged %d of %d lines" % (module, r.distinct, n))
+        if r.distinct != n + fanout:
+            raise Broken("trace module %s judged %d of %d lines" % (module, r.distinct - fanout, n))
         rej = {}
         for m in re.finditer(r'<<"REJECT", (\d+), \{([^}]*)\}>>', r.out):
             rej[int(m.group(1))] = sorted(x.strip().strip('"') for x in m.group(2).split(",") if x.strip())
